@@ -872,7 +872,10 @@ theorem C02_phase_lost_ack {p : Par} {s : State} {gab gba : GLink} (h : Cons p s
     U < o p.base (Sys.run s evs).A.snd_una :=
   ret2_done h U T2 I ht (Or.inr hpush) evs hsm hnow
 
-/-! ### what remains of `C02_progress_step_full` / `C02_drain_full` on the repaired model
+/-! ### what remained of `C02_progress_step_full` / `C02_drain_full` on the repaired model at this point
+
+(All three items below are closed further down: `C02_progress_step_every_head`, `C02_drain_general_partial`,
+and `C03_zero_window_probe_bound` in Props/C03.lean.)
 
 Proved, for arbitrary consistent states: the invariant after any fault history
 (`C02_consistency_any_history`); phase A as a single event (`C02_phase_retx_emitted`); phases B (for a
@@ -966,7 +969,7 @@ theorem C02_phase_release_arrives {p : Par} {s : State} {t0 : Nat} {frs : List W
     (hU : U ≤ o p.base s.A.snd_una) (hrel : ∃ fr ∈ frs, Rel p.base U fr) :
     U < o p.base (Sys.step s .dlvA).A.snd_una := phase_D_rel h hnw hdue U hU hrel
 
-/-! what remains of `C02_progress_step_full` / `C02_drain_full` after this:
+/-! what remained of `C02_progress_step_full` / `C02_drain_full` after this (closed further down):
 * the hypothesis `U ≤ rcv_nxt(B)` of `P1H` follows from `Cons.arel`, the fixpoint of the move loop
   (`MoveFix`) and "the delivery queue is not full" (true at every `tick` under the fair reader) ONCE the
   order of `rcv_buf` is part of the invariant — not done;
